@@ -3,6 +3,7 @@ package gen
 import (
 	"math"
 
+	"github.com/golang/geo/s1"
 	"github.com/golang/geo/s2"
 	"pgregory.net/rapid"
 
@@ -91,5 +92,73 @@ func TouchRings(t *rapid.T, l string, c s2.Point, r float64) (RingsPolygon, bool
 	}
 	j := rapid.IntRange(0, 2).Draw(t, l+".tj")
 	tri = append(tri[3-j:], tri[:3-j]...)
+	return RingsPolygon{Center: FromPt(c), Rings: [][]P{FromPts(shell), FromPts(tri)}}, true
+}
+
+// HugBand draws a band-shaped shell between two parallels that spans more than
+// 180 degrees of longitude without containing a pole (vertices every <= 20
+// degrees along both parallels), and a triangular hole with one edge lying
+// along (strictly inside, within rounding of) one of the shell's poleward
+// edges - the edges on which the shell attains its extreme latitude. The
+// centre is a point inside the hole.
+func HugBand(t *rapid.T, l string) (RingsPolygon, bool) {
+	south := rapid.Bool().Draw(t, l+".bs")
+	lat1 := rapid.Float64Range(5, 30).Draw(t, l+".blat1")
+	lat2 := lat1 + rapid.Float64Range(10, 25).Draw(t, l+".bdlat")
+	half := rapid.SampledFrom([]float64{95, 100, 120, 150, 170}).Draw(t, l+".bhalf")
+	alpha := rapid.Float64Range(-180, 180).Draw(t, l+".balpha")
+	k := int(math.Ceil(2 * half / 20))
+	ll := func(la, lo float64) s2.Point {
+		if south {
+			la = -la
+		}
+		return s2.PointFromLatLng(s2.LatLngFromDegrees(la, math.Remainder(lo+alpha, 360)))
+	}
+	var shell []s2.Point
+	for i := 0; i <= k; i++ {
+		shell = append(shell, ll(lat1, -half+2*half*float64(i)/float64(k)))
+	}
+	top0 := len(shell)
+	for i := k; i >= 0; i-- {
+		shell = append(shell, ll(lat2, -half+2*half*float64(i)/float64(k)))
+	}
+	e := top0 + rapid.IntRange(0, k-1).Draw(t, l+".be")
+	a, b := shell[e], shell[e+1]
+	f1 := rapid.Float64Range(0.05, 0.45).Draw(t, l+".bf1")
+	f2 := rapid.Float64Range(0.55, 0.95).Draw(t, l+".bf2")
+	mid := s2.Interpolate(0.5, a, b)
+	midLL := s2.LatLngFromPoint(mid)
+	in := s2.PointFromLatLng(s2.LatLng{Lat: midLL.Lat * s1.Angle((lat1+lat2)/(2*lat2)), Lng: midLL.Lng})
+	// the interior of the shell is on the left of a->b in the north, on the right after mirroring
+	want := 1
+	if south {
+		want = -1
+	}
+	inside := func(p s2.Point) (s2.Point, bool) {
+		for j := 0; j < 40; j++ {
+			if exact.Sign(a.Vector, b.Vector, p.Vector) == want {
+				return p, true
+			}
+			p = s2.Point{Vector: p.Add(in.Mul(float64(j+1) * 0x1p-53)).Normalize()}
+		}
+		return p, false
+	}
+	p, ok1 := inside(s2.Interpolate(f1, a, b))
+	q, ok2 := inside(s2.Interpolate(f2, a, b))
+	if !ok1 || !ok2 || p == q || exact.Sign(a.Vector, b.Vector, in.Vector) != want {
+		return RingsPolygon{}, false
+	}
+	tri := []s2.Point{p, q, in}
+	if south {
+		// mirrored: reverse both rings so that they stay counter-clockwise
+		for i, j := 0, len(shell)-1; i < j; i, j = i+1, j-1 {
+			shell[i], shell[j] = shell[j], shell[i]
+		}
+		tri = []s2.Point{q, p, in}
+	}
+	if exact.Sign(tri[0].Vector, tri[1].Vector, tri[2].Vector) <= 0 {
+		return RingsPolygon{}, false
+	}
+	c := Fix(s2.Point{Vector: tri[0].Add(tri[1].Vector).Add(tri[2].Vector).Normalize()}, in)
 	return RingsPolygon{Center: FromPt(c), Rings: [][]P{FromPts(shell), FromPts(tri)}}, true
 }
